@@ -464,6 +464,7 @@ func (rpcapi *ClusterRPCAPI) PinsRaw(ctx context.Context, in struct{}, out *[]*a
 		return ips == IPFSPinStatusRecursive'''),
  ('C10-hand-isclosest-nonstrict', 'util.go', '''bytes.Compare(myDistance[:], distance[:]) > 0''', '''bytes.Compare(myDistance[:], distance[:]) >= 0'''),
  ('C10-hand-isclosest-inverted', 'util.go', '''bytes.Compare(myDistance[:], distance[:]) > 0''', '''bytes.Compare(distance[:], myDistance[:]) > 0'''),
+ ('C04-hand-logunpin-forwards-as-logpin', 'consensus/raft/consensus.go', '''	err := cc.commit(ctx, op, "LogUnpin", pin)''', '''	err := cc.commit(ctx, op, "LogPin", pin)'''),
  ('C15-hand-display-reads-other-tag', 'config/util.go', '''f.Tag.Get("hidden") == "true"''', '''f.Tag.Get("hide") == "true"'''),
  # C18
  ('C18-hand-store-add-under-rlock', 'monitor/metrics/store.go', None, None),
